@@ -15,6 +15,10 @@ Three kinds of statements:
   `reads_only_resolved`, `baseline_ok`) – the same lines the real server answers in the
   differential replay.
 
+* the auth webhook and its verdict cache (`webhook_cache_key_in_source`,
+  `webhook_cache_transparent`, `webhook_cache_key_without_project_witness`, `webhook_off_same`,
+  `webhook_matrix_own_verdict`).
+
 The full statements hold of the current tree:
 
   foreign_denied      :  every foreign combination is denied
@@ -585,6 +589,99 @@ credential (the foreign requests differ from a succeeding request in one id only
 theorem baseline_ok :
     ∀ svc ∈ Svc.all, ∀ e ∈ handlersOf svc, ∃ c ∈ credsOf svc, decideH {} svc e.2 c .own = .ok := by decide +kernel
 
+/-! ## The auth webhook and its verdict cache -/
+
+/-- T-gen: `generateCacheKey(publicKey, body)` is exactly `fmt.Sprintf("%s:auth:%s", publicKey,
+body)` – the key mentions the project's public key and the whole body –, `verifyAccess` calls
+it with the request's own project (`prj.PublicKey`), reads and writes the verdict cache under
+that one key, and POSTs to the same project's URL (`prj.AuthWebhookURL`) between the two.
+`Access.fixtureWebhook.key` (the pair) models this expression. -/
+theorem webhook_cache_key_in_source :
+    Rpc.authCacheKeyFormat = "%s:auth:%s" ∧
+    Rpc.authCacheKeyArgs = ["publicKey", "body"] ∧
+    Rpc.authCacheKeyParams = ["publicKey", "body"] ∧
+    Rpc.authCacheKeyBodyStmts = 1 ∧
+    Rpc.authCacheKeyCallSites = [["prj.PublicKey", "body"]] ∧
+    ("cacheKey", "generateCacheKey(prj.PublicKey, body)") ∈ Rpc.authVerifyAssigns ∧
+    ("body", "json.Marshal(req)") ∈ Rpc.authVerifyAssigns ∧
+    ("be.Cache.AuthWebhook.Get", ["cacheKey"]) ∈ Rpc.authVerifyFlow ∧
+    ("be.AuthWebhookClient.Send", ["ctx", "prj.AuthWebhookURL", "\"\"", "body", "options"]) ∈ Rpc.authVerifyFlow ∧
+    Rpc.authVerifyFlow.any (fun c => c.1 = "be.Cache.AuthWebhook.Add" && c.2.head? = some "cacheKey") = true ∧
+    inOrder [["generateCacheKey"], ["be.Cache.AuthWebhook.Get"], ["be.AuthWebhookClient.Send"], ["be.Cache.AuthWebhook.Add"]]
+      (Rpc.authVerifyFlow.map (·.1)) = true := by decide +kernel
+
+/-- `webhook_cache_transparent`. For every webhook configuration over any types of projects,
+bodies and keys whose cache key determines project and body (as the code's key does), every
+sequence of requests and cache evictions started with an empty cache, and every request in
+it: the verdict is the one the request's OWN project's webhook gave for the same body –
+now, if the webhook was consulted; otherwise at a time `t0` less than the TTL ago, obtained by
+an earlier logged request of the same project and body that did consult the webhook. In
+particular it is never another project's verdict. -/
+theorem webhook_cache_transparent {π β κ : Type} [DecidableEq κ] (w : Webhook π β κ)
+    (hkey : ∀ p b p' b', w.key p b = w.key p' b' → p = p' ∧ b = b')
+    (ops : List (WOp π β κ)) :
+    ∀ x ∈ w.run ops [],
+      (x.consulted = true → x.verdict = w.hook x.proj x.time x.body) ∧
+      (x.consulted = false → ∃ t0, x.time < t0 + w.ttl ∧ x.verdict = w.hook x.proj t0 x.body ∧
+        ∃ y ∈ w.run ops [], y.proj = x.proj ∧ y.body = x.body ∧ y.time = t0 ∧
+          y.verdict = x.verdict ∧ y.consulted = true) := by
+  intro x hx
+  have := Webhook.run_good w hkey ops [] [] (by intro e he; simp at he) x hx
+  simpa [WGood] using this
+
+/-- the model's key (pair of project and body) satisfies the hypothesis of `webhook_cache_transparent` -/
+theorem fixture_key_determines_project :
+    ∀ p b p' b', fixtureWebhook.key p b = fixtureWebhook.key p' b' → p = p' ∧ b = b' := by
+  intro p b p' b' h
+  simpa [fixtureWebhook] using h
+
+/-- the variant of the cache key that omits the project (`"auth:" ++ hash body`) -/
+def webhookKeyWithoutProject : Webhook Proj Body Body :=
+  { hook := fixtureHook, key := fun _ b => b, ttl := fixtureWebhook.ttl }
+
+/-- `webhook_cache_transparent` is false of the variant whose key omits the project: after A's
+webhook has allowed a token, project B admits the same token from the cache although B's own
+webhook denies it – and B's webhook is not even consulted. -/
+theorem webhook_cache_key_without_project_witness :
+    let b : Body := ⟨.ta, "PushPullChanges", 0⟩
+    let log := webhookKeyWithoutProject.run [.req .A b 0, .req .B b 1] []
+    log.map (fun x => (x.proj, x.verdict, x.consulted)) = [(.A, .allow, true), (.B, .allow, false)] ∧
+    fixtureHook .B 1 b = .deny ∧
+    (fixtureWebhook.run [.req .A b 0, .req .B b 1] []).map (fun x => (x.proj, x.verdict, x.consulted))
+      = [(.A, .allow, true), (.B, .deny, true)] := by decide
+
+/-- Without a configured webhook the token-aware execution is `execH`: the webhook-free matrix
+theorems above speak about the same handler execution. -/
+theorem webhook_off_same (cfg : Cfg) (s : Store) (svc : Svc) (proc : String) (H : Handler) (c : Cred)
+    (tok : Token) (r : Req) (a : AuthSt) (ha : a.on = false) :
+    (execA cfg s svc proc H c tok r a).1 = (execH cfg s svc H c r).1 ∧
+    (execA cfg s svc proc H c tok r a).2.1 = (execH cfg s svc H c r).2 := by
+  unfold execA execH
+  split
+  · simp
+  · split
+    · simp
+    · rw [runGuardsA_off cfg s tok proc r _ _ a 0 0 ha]
+      split <;> simp_all
+
+/-- the decision the home project's own webhook stands for -/
+def ownVerdictDecision (home : Proj) (tok : Token) : Decision :=
+  match (fixtureHook home 0 ⟨tok, "", 0⟩).denial with
+  | some d => d
+  | none => .ok
+
+/-- The webhook lines of the matrix in the model: with webhooks configured on A and B, for
+every Yorkie procedure, every token and every order of two home projects, the first request
+(cold cache) and the second one (cache warmed by the first, possibly by the OTHER project)
+are both decided by their home project's own webhook, and the second consults its own
+webhook unless the first was the same project with a cacheable verdict. -/
+theorem webhook_matrix_own_verdict :
+    ∀ e ∈ yorkieHandlers, ∀ tok ∈ [Token.none, .ta, .tb, .terr], ∀ h1 ∈ [Proj.A, .B], ∀ h2 ∈ [Proj.A, .B],
+      let r1 := execA {} (worldFor e.2) .yorkie e.1 e.2 (.apiKey h1) tok (homeReq h1) { on := true }
+      let r2 := execA {} (worldFor e.2) .yorkie e.1 e.2 (.apiKey h2) tok (homeReq h2) { r1.2.2.1 with now := 1 }
+      r1.1 = ownVerdictDecision h1 tok ∧ r2.1 = ownVerdictDecision h2 tok ∧
+      (h1 ≠ h2 → r2.2.2.2 ≥ 1) ∧ 1 ≤ r1.2.2.2 := by decide +kernel
+
 /-! ## Non-vacuity examples -/
 
 /-- the hypotheses of `frame` are met by a data handler, and it does write -/
@@ -623,5 +720,14 @@ example : ∃ H, handlerOf .yorkie "ListRevisions" = some H ∧
     (world0.set .B {}) .A = world0 .A ∧ (world0.set .B {}) .B ≠ world0 .B := by
   refine ⟨_, rfl, ?_⟩
   decide
+
+/-- `webhook_cache_transparent` is not vacuous: a sequence over the fixture's webhooks in which a
+verdict does come from the cache (third request), one is refused by the own webhook although the
+other project's cached verdict allows it (second), and an eviction forces a new consultation -/
+example :
+    let b : Body := ⟨.ta, "AttachDocument", 0⟩
+    (fixtureWebhook.run [.req .A b 0, .req .B b 1, .req .A b 2, .evict (fun _ => false), .req .A b 3] []).map
+        (fun x => (x.proj, x.time, x.verdict, x.consulted)) =
+      [(.A, 0, .allow, true), (.B, 1, .deny, true), (.A, 2, .allow, false), (.A, 3, .allow, true)] := by decide
 
 end Yorkie.Props.C13
